@@ -40,6 +40,30 @@ CHECKS["C06"] = dict(
     technique="TLA+ reference executor model-checked with TLC; TLC-generated vectors replayed into the Go code",
     design="3/C06")
 
+_EXEC_NOTE = ("Trusted: reference semantics in spec/Exec.tla, the harness (Go unparser of the AST schema, recording "
+              "writer/loader/callbacks), TLC. Verdicts come only from the real code's observable behaviour.")
+CHECKS["C07"] = dict(
+    text="spec/props/C07.tla: programs pre;K;post with probes before/inside/after the construct K (for, if, set, set-capture, "
+         "macro call, nested) over colliding and fresh names. TLC checks FrameRule, FreshNamesUndefinedAfter, "
+         "TemplateSetPersists, OuterSetUpdates, LocalsShadow on the reference scope stack for every program and prints the "
+         "vectors; replay compares output and the flattened scope seen by every probe (ctx.Scope().All()).",
+    note=_EXEC_NOTE, technique="TLA+ reference executor model-checked with TLC; TLC-generated vectors replayed into the Go code",
+    design="3/C07")
+CHECKS["C08"] = dict(
+    text="spec/props/C08.tla: all nestings (depth 3 quick / 5 thorough) of set-capture, filter sections, macro calls, block(), "
+         "loops and parent(). Each construction step defines structurally what the piece contributes to its enclosing writer; "
+         "TLC checks CaptureExact (destination output = structural expectation), Balanced, MainOnlyFromDepth0, OrderPreserved on "
+         "the reference writer stack's event log, prints vectors; replay compares the bytes the destination writer received.",
+    note=_EXEC_NOTE, technique="TLA+ reference executor model-checked with TLC; TLC-generated vectors replayed into the Go code",
+    design="3/C08")
+CHECKS["C09"] = dict(
+    text="spec/props/C09.tla: inheritance configurations as data (chain 1..4, per-level absent/override/override+parent(), use with "
+         "and without alias, nested/loop layouts, parent by expression). Resolution is defined declaratively (Chain/RenderFrom); "
+         "TLC checks MostDerivedWins and NameInBlock of the executor's chain walk for every configuration (all 118k in thorough) "
+         "and prints vectors; replay compares output and the template name every callback sees.",
+    note=_EXEC_NOTE, technique="TLA+ reference executor model-checked with TLC; TLC-generated vectors replayed into the Go code",
+    design="3/C09")
+
 NOT_YET = {}
 
 props = [json.loads(l)["id"] for l in open(os.path.join(VERIF, "properties.jsonl"))]
